@@ -543,7 +543,7 @@ class MainProvider(ResolverMixin, BaseProvider):
                 if 'EmbeddedInstance' in obj.qualifiers:
                     eiqualifier = obj.qualifiers['EmbeddedInstance']
                     # The DMTF spec allows the value to be None
-                    if eiqualifier.value is None or \
+                    if not isinstance(eiqualifier.value, str) or \
                             eiqualifier.value.lower() == klass_namelc:
                         continue
                     if not class_store.object_exists(eiqualifier.value):
